@@ -146,3 +146,18 @@ def _re_sub(interp, args, kwargs, node, env):
 
 
 A.EXTERNAL_CALLS['re.sub'] = _re_sub
+
+
+def _vars(interp, args, kwargs, node, env):
+    o = args[0]
+    if isinstance(o, A.Obj) and o.kind == 'mock':
+        return dict((k, v) for k, v in o.attrs.items() if not (k.startswith('__') and k.endswith('__')))
+    raise A.Unsupported('vars() of %s' % A.key_of(o))
+
+
+def _callable(interp, args, kwargs, node, env):
+    return isinstance(args[0], (A.FuncRef, A.ClassRef)) or callable(args[0])
+
+
+A.BUILTINS.setdefault('vars', _vars)
+A.BUILTINS.setdefault('callable', _callable)
